@@ -21,6 +21,10 @@ independent oracle written here from the property text.
   verdict   validate_ksr on /repo's archived KSRs and broken files, under ksrsigner configurations
             whose POLICY is perturbed one rule at a time, with and without a previous SKR: status vs
             what load_ksr + check_skr_and_ksr(p11modules=None) say themselves vs the model's composition.
+            CONFIGURATION SECTIONS: num_bundles / validate_signatures occur in request_policy and in
+            response_policy; 4 request x 4 response settings (equal and different) x previous SKR honest /
+            first- / last-bundle signature bit-flipped, and a bit-flipped upload: the previous SKR is judged
+            by the response policy (load_skr), the upload by the request policy.
   history   HISTORIES in one process: sequences of 2..5 uploads handled by the same long-lived module
             state (real WKSR application objects built by WKSR.from_file from a real wksr.yaml) while,
             BETWEEN the uploads, the content of the file named by filenames.previous_skr is replaced
@@ -614,7 +618,11 @@ def stream_verdict(res: Result, tier: str, driver_ok: bool) -> None:
         ("2018-q1", data / "skr/tests/data/skr-root-2018-q1-0-d_to_e.xml"),
         ("skr-truncated", (data / "signer/tests/data/skr-root-2017-q1-0.xml").read_bytes()[:3000]),
     ]
-    resp_policies: list[tuple[str, dict[str, Any]]] = [("resp-default", {}), ("resp-8-bundles", {"num_bundles": 8})]
+    # previous SKRs whose own signatures do not verify: one base64 character of the first / of the LAST bundle's signature changed
+    q1 = (data / "signer/tests/data/skr-root-2017-q1-0.xml").read_bytes()
+    last_sig = q1.rindex(b"<SignatureData>")
+    skr_files += [("2017-q1-first-sig-bitflip", _flip_after(q1, b"<SignatureData>")), ("2017-q1-last-sig-bitflip", q1[:last_sig] + _flip_after(q1[last_sig:], b"<SignatureData>"))]
+    resp_policies: list[tuple[str, dict[str, Any]]] = [("resp-default", {}), ("resp-8-bundles", {"num_bundles": 8}), ("resp-no-signatures", {"validate_signatures": False}), ("resp-8-bundles-no-signatures", {"num_bundles": 8, "validate_signatures": False})]
 
     plan: list[tuple[str, str, str, str, str]] = []
     for ptag, _ in PERTURB:
@@ -627,6 +635,17 @@ def stream_verdict(res: Result, tier: str, driver_ok: bool) -> None:
         for ptag in ("base", "chain-off", "chain-keys-off", "chain-overlap-off"):
             plan.append(("2017-q2", stag, ptag, "resp-default", "pinned"))
     plan.append(("2017-q2", "2017-q1", "base", "resp-8-bundles", "pinned"))  # previous SKR refused by load_skr -> RuntimeError
+    # CONFIGURATION SECTIONS: num_bundles and validate_signatures exist in request_policy AND response_policy (the option names
+    # shared by two sections are read off the pydantic models, ceremony_run.shared_section_options()); every pair of settings,
+    # equal and DIFFERENT, with an honest previous SKR and with previous SKRs whose signatures do not verify: the previous SKR
+    # is the response policy's business, the upload the request policy's
+    for stag in ("2017-q1", "2017-q1-first-sig-bitflip", "2017-q1-last-sig-bitflip"):
+        for ptag in ("base", "no-signatures", "num_bundles-8", "num_bundles-8+flags-off"):
+            for rtag, _ in resp_policies:
+                plan.append(("2017-q2", stag, ptag, rtag, "pinned"))
+    for rtag, _ in resp_policies:
+        plan.append(("sig-bitflip", "2017-q1", "base", rtag, "pinned"))
+        plan.append(("sig-bitflip", "2017-q1", "no-signatures", rtag, "pinned"))
     plan.append(("2017-q2", "none", "base", "resp-default", "real"))  # real clock: long expired
     plan.append(("2017-q2", "none", "horizon-on", "resp-default", "real"))
     plan.append(("2017-q2", "none", "horizon-on", "resp-default", "pinned-late"))
@@ -640,6 +659,13 @@ def stream_verdict(res: Result, tier: str, driver_ok: bool) -> None:
     seen = set()
     plan = [p for p in plan if not (p in seen or seen.add(p))]
 
+    import ceremony_run
+
+    SHARED_OPTIONS = ceremony_run.shared_section_options()
+    res.stats["options-named-in-two-sections"] = SHARED_OPTIONS
+    from kskm.common.config_misc import RequestPolicy
+
+    SHARED_DEFAULTS = {o: RequestPolicy.model_fields[o].default for o in SHARED_OPTIONS if o in RequestPolicy.model_fields}
     first_inception_us = lib.dt_us(request_from_xml(good.decode()).bundles[0].inception)
     cases = []
     lines = []
@@ -708,6 +734,12 @@ def stream_verdict(res: Result, tier: str, driver_ok: bool) -> None:
         res.bump("verdict:ksr:" + c["ksr"])
         res.bump("verdict:skr:" + c["skr"])
         res.bump("verdict:policy:" + c["policy"])
+        res.bump("verdict:response-policy:" + c["resp"])
+        req_over = dict(PERTURB)[c["policy"]]
+        resp_over = dict(resp_policies)[c["resp"]]
+        differ = sorted(o for o in SHARED_OPTIONS if req_over.get(o, SHARED_DEFAULTS.get(o)) != resp_over.get(o, SHARED_DEFAULTS.get(o)))
+        if differ and c["skr"] != "none":
+            res.bump("verdict:sections-differ-in:" + "+".join(differ) + ":previous-skr:" + c["skr"])
         out, exp = c["out"], c["exp"]
         res.bump("verdict:outcome:" + (out["ok"] if "ok" in out else "exception"))
         if "violation" in c["parts"]:
@@ -1038,7 +1070,8 @@ def run(tier: str, driver_ok: bool) -> Result:
         "upload: ~40 crafted + random client file names (unsafe/unicode/NUL/surrogate/10 kB/None) + hostile ends (safe-only body x 21 single unsafe characters incl. newline / CR / NUL / U+2028 / `$` x {start, end, both, doubled, inside, CR LF, alone}) with a passing upload, sizes {None,0,max-1,max,max+1,huge} x "
         "content types {right,wrong,None,case,params,empty} x 3 names, missing / relative upload dir; tree snapshot before/after; random pathlib joins; "
         "whitelist: real certificates x {listed, unlisted, empty, upper-case, prefix, longer, colon-separated, SPKI digest} + no TLS / no certificate / bad DER; "
-        "verdict: archived and broken KSRs x previous SKR {none, chained, same id, unrelated, later, unparsable} x one-rule policy perturbations x clocks; "
+        "verdict: archived and broken KSRs x previous SKR {none, chained, same id, unrelated, later, unparsable, first / last bundle signature bit-flipped} x one-rule policy perturbations x clocks; "
+        "the options named in two configuration sections (num_bundles, validate_signatures of request_policy / response_policy, read off the pydantic models) set to every pair of values, equal and different, x honest / bit-flipped previous SKR and upload; "
         "history: 30 written + random sequences of 2..5 uploads in one process with previous-SKR content / ksrsigner.yaml / wksr.yaml (whitelist, limits) / upload directory changed between them "
         "(same KSR twice, A-B-A, refused-then-good, ceremony-then-replay), every step vs property text, signer's functions now, a fresh interpreter per step, model; "
         "non-trivial = distinct (stream, input)"
